@@ -128,6 +128,67 @@ def powerloss(sp, op="append", n_prior=1, drop_fsync=None):
         sp.require(rows == (obs.rows or []) and rows2 == sorted(rows + [999]), f"{tag}: recovery rows {rows} / {rows2}", {"sig": f"{tag}:recovery-rows"})
 
 
+def fsync_fault(sp, op="append", n_prior=1):
+    """The k-th fsync of a FILE (k symbolic) reports an I/O error (nothing is flushed).  If the operation is nevertheless
+    acknowledged, it must survive a power loss right after it returned; in no case may the surviving pointer lead to missing /
+    partial files.  (Directory-fsync errors are tolerated by design on file systems without directory fsync and are not injected.)"""
+    import errno as _errno
+    with Env(sp, rig="L", clock="tick") as e:
+        w = e.world
+        t, pre, ctx = setup(e, op, n_prior)
+        fos = e.fos
+
+        def persist(d):
+            d.durable = dict(d.entries)
+            for n, x in d.entries.items():
+                if x.kind == "dir":
+                    persist(x)
+                elif x.kind == "file":
+                    x.flushed = x.data
+        persist(fos.root)
+        k = sp.fresh_int("failing_fsync", 0, 40)
+        seen = {"n": 0, "fired": None}
+
+        def cb(w_, label, info, a):
+            if label != "fsync":
+                return
+            ofd = fos.fds.get(info.get("fd"))
+            if ofd is None or ofd.isdir:
+                return
+            hit = bool(seen["n"] == k)
+            seen["n"] += 1
+            if hit:
+                seen["fired"] = ofd.path
+                raise OSError(_errno.EIO, "injected fsync failure")
+        w.callbacks.append(cb)
+        acked = False
+        try:
+            run_op(e, t, op, ctx)
+            acked = True
+        except Exception:  # noqa
+            pass
+        w.callbacks.clear()
+        fos.power_loss()
+        sp.note("failing_fsync_of", seen["fired"])
+        sp.note("acknowledged", acked)
+        sp.reach("ran")
+        tag = f"fsync-fault:{op}"
+        try:
+            obs = summarize(e)
+            if obs.md is not None:
+                for s_ in obs.md["snapshots"]:
+                    reader.snapshot_rows(obs.files, s_, "a")
+        except reader.Unreadable as ex:
+            sp.require(False, f"{tag}: fsync of {seen['fired']} failed, the operation {'was acknowledged' if acked else 'raised'}, and after a power loss "
+                       f"the pointer leads to missing / partial files: {ex}", {"sig": f"{tag}:pointer-outruns-data"})
+            return
+        if acked:
+            sp.require(is_post(pre, obs, op), f"{tag}: acknowledged although the fsync of {seen['fired']} failed, and the commit does not survive a power loss",
+                       {"sig": f"{tag}:acked-not-durable"})
+        else:
+            sp.require(is_pre(pre, obs) or is_post(pre, obs, op), f"{tag}: neither pre nor post state after power loss", {"sig": f"{tag}:neither"})
+
+
 def flip_instant(sp, ops=("append", "append"), K=2):
     with Env(sp, rig="L", clock="tick") as e:
         w = e.world
@@ -185,6 +246,9 @@ def obligations(tier):
             obs.append(Ob(f"powerloss.{op}.n{n}", "vf.props.c16:powerloss", {"op": op, "n_prior": n, "_must_reach": ["after-op"], "_sample_every": 40},
                           timeout=T, bounds=f"operation {op}, {n} prior snapshots, power loss before every FakeOS call of the operation and after it returned",
                           weight=4))
+    for op in (["append", "delete"] if tier == "quick" else ["append", "append2", "delete", "replace", "expire", "delsnap_cur", "create"]):
+        obs.append(Ob(f"fsyncfault.{op}", "vf.props.c16:fsync_fault", {"op": op, "n_prior": min_prior(op) if op != "create" else 0, "_must_reach": ["ran"]}, timeout=T,
+                      bounds=f"operation {op}: each file fsync (symbolic index) fails with EIO, then power loss after the call returned", weight=3))
     pairs = [("append", "append")] if tier == "quick" else [("append", "append"), ("append", "delete"), ("append2", "expire"), ("replace", "append")]
     for pr in pairs:
         K = 2 if tier == "quick" else 3
